@@ -648,15 +648,26 @@ def run(ck, facts):
         ctx_pos = [i for i, t_ in enumerate(ins) if "StructBorrowContext" in t_ and i < len(ps) and isinstance(ps[i], dict)]
         if not ctx_pos:
             continue
+        own_ctx = {ps[i].get("id") for i in ctx_pos}
         for x in C.walk(C.fn_body(f)):
-            if x.get("k") in ("call", "mcall") and C.norm_path(x.get("p") or C.callee(x) or "") == C.norm_path(f["path"]):
+            if x.get("k") not in ("call", "mcall"):
+                continue
+            # the function itself, or a sibling conversion it hands part of the job to (`.._for_option`, `.._for_struct_type`): anyone who also takes a borrow context
+            cal = tool.norm.get(C.norm_path(x.get("p") or C.callee(x) or ""))
+            if not cal or "hir" not in cal:
+                continue
+            cins = cal.get("inputs") or []
+            cpos = [i for i, t_ in enumerate(cins) if "StructBorrowContext" in t_]
+            if not cpos:
+                continue
+            if True:
                 args = ([x["recv"]] + list(x.get("a") or [])) if x.get("k") == "mcall" else list(x.get("a") or [])
-                for i in ctx_pos:
+                for i in cpos:
                     if i < len(args):
                         nrec += 1
                         a0 = C.strip(args[i])
                         fk = C.norm_path(f["path"]).replace("diplomat_tool::", "")
-                        ck.expect(a0.get("k") == "local" and a0.get("id") == ps[i].get("id"), "R1", "%s/recursion-forwards-borrow-context#%d" % (fk, sum(1 for i_ in ck.instances if i_["key"].startswith(fk + "/recursion-forwards"))),
+                        ck.expect(a0.get("k") == "local" and a0.get("id") in own_ctx, "R1", "%s/recursion-forwards-borrow-context#%d" % (fk, sum(1 for i_ in ck.instances if i_["key"].startswith(fk + "/recursion-forwards"))),
                                   "forwarded", "%s calls itself for a nested type with `%s` in place of its own borrow context: the nested struct's borrowed fields are allocated in the temporary arena" %
                                   (f["name"], a0.get("n") or (a0.get("ctor") or a0.get("p") or a0.get("k") or "?").split("::")[-1]), C.loc(f, x.get("ln")))
     if nrec < 2:
